@@ -113,7 +113,7 @@ def _options_frame(exc):
 
 
 def run_real(args, cfg_text, date, keys):
-    """-> ('arg-error',) | ('coerce-error',) | ('format-error',) | ('ok', {key: value}, argv)"""
+    """-> ('arg-error',) | ('coerce-error',) | ('format-error',) | ('ok', {key: value}, argv) | ('crash', message)"""
     root = logging.getLogger()
     saved = (sys.argv[:], root.level, O.datetime)
     O.datetime = _FakeDatetime(date)
@@ -129,7 +129,9 @@ def run_real(args, cfg_text, date, keys):
                 return ('coerce-error',)
             if where == 'parse':
                 return ('format-error',)
-            raise
+            return ('crash', '%s: %s (in %s)' % (type(e).__name__, e, where))
+        except Exception as e:          # anything else parse() lets escape: an observation (reported), not a crash of the check
+            return ('crash', '%s: %s' % (type(e).__name__, str(e)[:300]))
         attrs = {k: getattr(opts, k, MISSING) for k in keys}
         return ('ok', attrs, list(sys.argv))
     finally:
@@ -332,7 +334,8 @@ def compare(ck, case, args, obs, exp, keys, defaults, family, extra=None, hint=N
         ck.violation(obj)
         return False
     if obs[0] != exp[0]:
-        return report('outcome class differs: expected %s, observed %s' % (exp[0], obs[0]), None, exp[0], obs[0])
+        return report('outcome class differs: expected %s, observed %s' % (exp[0], obs[0]), None, exp[0],
+                      obs[0] if obs[0] != 'crash' else 'crash: ' + obs[1])
     if obs[0] != 'ok':
         return True
     for k in keys:
@@ -934,6 +937,16 @@ def run(ck):
         except TR.TranslateError as e2:
             ck.broken.append('option table cannot be extracted even leniently: %s' % e2)
             return
+    for a in tab.get('assumed') or []:
+        # a shape of jug/options.py the translator does not recognise is not a failure by itself: the table was generated
+        # with the SPECIFIED shape and every differential case below (model in coqc and restated property, on the real code)
+        # decides whether the code has it - a disagreement is reported as usual
+        ck.obligations.append({'name': 'translator: a shape of jug/options.py is not recognised; the specified one is assumed '
+                                       'and the differential cases decide', 'kind': 'translator', 'ok': 'lenient', 'msg': a})
+        ck.notes.append('translator (lenient): ' + a)
+        ck.assumptions.append('NOT read from the source in this run (shape not recognised), assumed as specified and tested by '
+                              'every correspondence case: ' + a)
+        ck.count('translator-shapes-assumed')
     defaults = live_defaults(keys)
     preamble = 'Definition obs_keys : list string := %s.' % listlit([cs(k) for k in keys])
     lits, metas = [], []
@@ -944,11 +957,13 @@ def run(ck):
         obs = run_real(args, render_cfg(case.cfg), case.date, keys)
         exp = expected(case, tab, defaults, keys)
         agree = compare(ck, case, args, obs, exp, keys, defaults, family)
+        ck.count('%s:%s' % (family, obs[0]))
+        if obs[0] == 'crash':           # reported by compare(); nothing the model could be asked about
+            return obs, agree
         lits.append(case_lit(case, outcome_lit(obs, keys)))
         metas.append({'family': family, 'args': args, 'config_text': render_cfg(case.cfg), 'date': case.date,
                       'observed': obs[0] if obs[0] != 'ok' else {'argv': obs[2],
                                                                  'attrs': {k: jval(v) for k, v in obs[1].items()}}})
-        ck.count('%s:%s' % (family, obs[0]))
         ck.distinct((case.sub, tuple(case.opts), tuple(case.pos), tuple(case.cfg), case.date, case.layout),
                     bool(case.opts or case.cfg))
         return obs, agree
@@ -1027,10 +1042,11 @@ def run(ck):
             own += [o for o in required_for[sub] if not any(o[0] == f for f, _ in own)]
             extras = [ck.rng.choice(EXTRA_PLAIN) for _ in range(ck.rng.choice([0, 1]))] if pos else []
             case = Case(sub, own + jd, pos + extras, ('plain', None), cfg, date)
-            obs, _ = one(case, 'same-project')
+            args = g.argv(case)
+            obs, _ = one(case, 'same-project', args)
             with patched_select():
                 loc = (obs[0],) if obs[0] != 'ok' else (obs[1]['jugdir'], SEL.select(obs[1]['jugdir']))
-            seen.setdefault(loc, []).append((sub, metas[-1]['args']))
+            seen.setdefault(loc, []).append((sub, args))
             if obs[0] == 'ok':
                 loc_cases.append(loc)
         if len(seen) != 1:
